@@ -126,7 +126,7 @@ def std_cases(tier, seed, caps=None, cross_all=False):
     else:
         fixed = [(1, 1), (1, 2), (9, 0), (10, 0), (26, 3), (27, 1), (40, 1), (40, 2), (5, 2), (7, 3)]
         pairs = fixed + rnd.sample([p for p in allpairs if p not in fixed and p[0] <= 30], 14)
-        nrand = 700
+        nrand = 1200
     cases = gens.boundary_cases(rnd, caps, pairs)
     if tier != "thorough":
         # keep the quick tier quick: thin out large-version boundary cases
